@@ -25,9 +25,10 @@
    errors of the centered differences do not).  Not judged, because the comparison is then not a comparison of the jacobian
    with its own finite differences: (i) the iterates of a step whose integration fails; (ii) the initial iterate of a step
    (all increments zero: exactly on the switching points of max(dp, 0), Macaulay brackets, status tests, where only
-   one-sided derivatives exist); (iii) an iteration in which a plastic flow changes status - the convergence checks switch
-   the flow on or off AFTER the jacobian was evaluated and the generated comparison differentiates the NEW system
-   (recognised by the entry df p / dd p being exactly 1 in one of the two jacobians only).  The built-in absolute criterion of the generated code is not used as
+   one-sided derivatives exist); (iii) an iteration in which a mechanism changes status (plastic flow, DDIF2 crack) - the
+   convergence checks switch it on or off AFTER the jacobian was evaluated and the generated comparison differentiates
+   the NEW system (recognised by the diagonal entry of a scalar unknown, df p / dd p or df ef(i) / dd ef(i), being exactly 1
+   in one of the two jacobians only).  The built-in absolute criterion of the generated code is not used as
    the verdict because its scale is arbitrary (documented default = the convergence threshold). *)
 EXTENDS BehaviourLab, TLC
 
@@ -128,6 +129,14 @@ QuickExtras ==
 \* deliberately off by 50 %: the machinery must report that block and no other
 Probe == Cfg("Probe", "Norton", "Mises", "none", "none", "none", "none", FALSE, "Tridimensional")
 Configs(thorough) == {Probe} \cup IF thorough THEN {FromRow(r) : r \in PairwiseRows} \cup ExtraConfigs ELSE {FromRow(r) : r \in QuickRows} \cup QuickExtras
+
+\* cross-check of a sample: the same configuration generated with @Algorithm NewtonRaphson_NumericalJacobian (the generated
+\* code computes every block by finite differences, no analytical block is used) must return the same stresses and
+\* state along the paths, within TwinClass (two solutions converged to 1e-14)
+TwinSample(thorough) == {c \in Configs(thorough) : /\ c.pot = "Hooke" /\ c.nuc = "none" /\ c.hyp = "Tridimensional"
+                                                   /\ c.crit \in {"Mises", "Hosford", "Hill", "Drucker 1949"}
+                                                   /\ (thorough => c.khr \in {"none", "Prager", "Chaboche 2012"} /\ c.ihr \in {"none", "Linear", "Voce", "Power", "UserDefined"})}
+TwinClass == -9
 
 \* ---- loading paths ---------------------------------------------------------------------------------------------------
 \* proportional then non-proportional steps (units of 1/1024) that take every configuration well into the inelastic
